@@ -310,7 +310,7 @@ def extra_checks_inner(pid, tier):
             import vxcompile
             return vxcompile.c12_compile(tier) + vxcompile.c12_mutual(tier)
         if pid == "C18":
-            return compile_probes("C18", ["c18_named_serde_derives", "c18_path_qualified_derives", "c18_keys_next_to_extern_enums"])
+            return compile_probes("C18", ["c18_named_serde_derives", "c18_path_qualified_derives", "c18_keys_next_to_extern_enums", "c18_crate_rooted_scalars_module"])
     except Undecided as e:
         return [{"obligation": pid + ".shape", "status": "undecided", "engine": "declaration-shape", "detail": str(e)}]
     return []
